@@ -106,8 +106,32 @@ m = {
  'notes': 'All checks: ./check <id> --tier quick|thorough; exit 0 held / 1 VIOLATION / 2 machinery failure. VERIF_SEED seeds every random choice.',
  'not_applicable': [{'property_id': p, 'reason': PENDING} for p in ALL if p not in CHECKS],
 }
+# input classes added after the sixth and seventh seed waves (DESIGN 14.6), per property
+EXTRA = {
+ 'C01': 'Also: chains of 1500 gates, single gates with 1200 operands, circuits with 9-11 inputs (kind evaldeep, linear clauses), blocks named like output gates, hostile label strings.',
+ 'C02': 'Also: a refusal matrix (37 scripted calls every mutator must refuse), generated-name clashes, 120-gate blocks removed as a whole, deep chains through copying and local mutators.',
+ 'C03': 'Also: chains of 1500 gates (mixed and purely unary) through every pass, operand labels that are ambiguous once joined.',
+ 'C04': 'Also: cuts of 6-7 leaves, circuits with 11-12 inputs, labels differing only in case / zero padding; call-site findings carry a precondition or a per-1000 bound (14.4).',
+ 'C05': 'Also: the explicit-stack gate walk as a TLC state machine (TseytinWalk), gates of arity 5-10, chains of 1200 gates judged by a linear clause that reads the CNF as a list of definitions (branching on unconstrained variables).',
+ 'C06': 'Also: planted instances decided by their witness: 13 gates over 6 inputs under a one-second limit, 11-13 outputs, fixed gates at node 12 and up.',
+ 'C07': 'Also: operands beyond 32 / 64 bits, bit counters over 257 / 300 operands, ambiguous operand names, host label styles and decoys for predictably named new gates.',
+ 'C08': 'Also: Karatsuba shapes with the narrow operand next to half of the wide one, host label styles and decoys.',
+ 'C09': 'Also: subtractors beyond 32 / 64 bits (bit-sequence clauses), equality gadgets of 33-64 bits with the rows on which the operand is the constant, host label styles and decoys.',
+ 'C10': 'Also: right-connections of 33 / 40 connector pairs (kind connectwide, linear clauses), the empty label as connector.',
+ 'C11': 'Also: trailing blanks, labels that ARE keywords, chains of 1500 / 5000 gates (files beyond 64 KiB) printed, saved and parsed back.',
+ 'C12': 'Also: a circuit representation with a 1200-gate path, inputs named out of text order, integer wrappers of 65-128 bits (bit-sequence clauses), copied / pickled don\'t-care markers.',
+ 'C13': 'Also: 33 / 65 / 129 outputs, output labels that are ambiguous once joined, operands with 1200-gate paths (kind miterdeep).',
+ 'C14': 'Also: helper-like and keyword labels, gates rebuilt under their old label between two conversions, chains of 1500 gates with nested and overlapping blocks.',
+ 'C15': 'Also: gates of arity 9-12, circuits restricted by one replace_inputs call before evaluation.',
+ 'C16': 'Also: chains of 1200 gates, node / output counts around 256 / 512 (thorough: 1024), decoder-style labels with permuted inputs, encode-decode-reorder-encode histories.',
+ 'C17': 'Also: five exclusion lists for the don\'t-care lookup, models with 13 don\'t-cares, copied / pickled don\'t-care markers.',
+ 'C18': 'Also: chains of 1500 gates through pipelines of every shape, 17-input circuits through the heavy clean-up, equivalence groups containing the empty label.',
+ 'C19': 'Also: loop-closing equivalent replacements in hosts of 300 gates.',
+ 'C20': 'Also: circuits with a past, dense cones (work lists of thousands of entries), chains of 1500 gates (kind travdeep, linear clauses), netlists of 300 / 600 gates for the cycle check, pattern-like start labels.',
+}
 for p in sorted(CHECKS):
     c = CHECKS[p]
+    c['text'] = c['text'].rstrip() + ' ' + EXTRA[p]
     m['checks'].append({
         'property_id': p,
         'quick_cmd': f'./check {p} --tier quick',
